@@ -59,7 +59,7 @@ def main(argv):
         r = Report(pid, tier, "other", seed)
         r.undecide("E0", "extraction", str(e)[:1500])
         return r.finish("fact extraction failed; nothing was analysed")
-    except Exception:
+    except (Exception, MemoryError):
         traceback.print_exc()
         r = Report(pid, tier, "other", seed)
         r.undecide("engine", "internal-error", traceback.format_exc()[-1500:])
@@ -236,3 +236,47 @@ def c20(tier, seed):
         "declared features, implicit optional-dependency features included; the exit status of the type checker is the "
         "verdict for that point. Sources are /repo's working tree; build output goes to a temporary directory.",
         trusted_base=["rustc/cargo stable"], coverage_extra={"exhaustive": tier == "thorough"})
+
+
+from . import check_static
+
+
+@check("C18")
+def c18(tier, seed):
+    r = Report("C18", tier, "other", seed)
+    n = check_static.c18(r, tier)
+    r.floor("statics inventoried", n, 12)
+    r.assumptions = ["std::sync::Once (lazy_static) and std_detect's feature cache perform one-time initialisation correctly",
+                     "Rust's &mut exclusivity: safe code cannot alias another instance's state",
+                     "raw-pointer stores are audited under C16"]
+    return r.finish(
+        "R18.1: inventory of every static item of every workspace crate (from the compiler's item table): each must be "
+        "immutable data without interior mutability, or a lazy_static function-pointer cell whose initialiser (found "
+        "through the Deref impl) calls nothing but CPU-feature detection and takes function items as values; static mut, "
+        "thread-locals and other interior mutability are violations. R18.2: every static referenced by workspace code "
+        "reachable from the public API roots is in that inventory. R18.3: no manual Send/Sync impl. R18.4: a witness crate "
+        "asserting Send + Sync for 26 public state types type-checks. With no shared mutable state and &mut exclusivity, "
+        "interleavings of threads or instances cannot influence results. Positive controls in fixtures/controls must be "
+        "recognised on every run.", trusted_base=["rustc item tables / type checker", "std::sync::Once", "std_detect"],
+        coverage_extra={"exhaustive": True})
+
+
+@check("C16")
+def c16(tier, seed):
+    r = Report("C16", tier, "other", seed)
+    n = check_static.c16_structural(r, ["K1", "K2"])
+    r.floor("workspace instances audited", n, 1500)
+    from . import check_bytes
+    check_bytes.run(r, tier)
+    r.assumptions = ["safe Rust (and core, block-buffer, generic-array, zerocopy) never accesses memory outside a slice",
+                     "a rustc nightly's MIR shows every raw-pointer dereference, transmute and union access"]
+    return r.finish(
+        "Audit of every unsafe memory operation in every monomorphic instance of workspace code reachable from the public "
+        "API (x86 and portable builds): R16.1 no alignment-requiring load/store intrinsic and no typed dereference or "
+        "ptr::read/write of a pointer whose def chain starts at less aligned (byte) data - only the unaligned forms are "
+        "used; R16.3 unions and transmutes between byte and word views have equal sizes and no padding (layout facts); "
+        "R16.4 no pointer-to-integer conversion or address inspection, so results cannot depend on addresses; "
+        "R16.2 extent: the raw-pointer entry points (Groestl tf512/tf1024, JH f8, vector byte loads/stores) are evaluated "
+        "by the value-graph engine on buffers of exactly the documented size, where any access outside the buffer is "
+        "reported. Positive controls must be recognised on every run.",
+        trusted_base=["rustc MIR", "layout facts", "engine/interp.py pointer model"], coverage_extra={"exhaustive": True})
